@@ -63,7 +63,7 @@ def run(tier, rng, C):
         cases.append({'id': cid, 'line': V.stack_line(cid, 'value2', layers), 'show': V.stack_show(layers), 'nontrivial': True, 'clean': True})
     # strings that mix inventory-query brackets $[ ... ] (plain text for this implementation), braces and
     # resolvable references: every reference is rendered wherever it stands
-    pcs = ['$[', ']', ' ${a} ', '${b:c}', 'txt ', '$[x]', '\\$[', '{', '}', ' if x == ${a}', '$', '${a${d}}']
+    pcs = ['$[', ']', ' ${a} ', '${b:c}', 'txt ', '$[x]', '\\$[', '{', '}', ' if x == ${a}', '$', '${a${d}}', '${', '${}', '${a']
     for i in range(120 if tier == 'quick' else 4000):
         s = ''.join(rng.choice(pcs) for _ in range(rng.randint(2, 7)))
         if i % 3 == 0:
